@@ -29,8 +29,8 @@ def run(ctx, rep):
     import api_rules as AR
     AR.check_throwable_trace_api(fx, rep, "C08.api")
     AR.check_frame_api(fx, rep, "C08.api")
-    n = R2.check_twins(fx, rep, "C08.5")
-    rep.floor("C08.5", n, 6, "twin pairs")
+    n = R2.check_twins(fx, rep, "C08.5", only=("remap_stacktrace_typed", "remap_stacktrace", "remap_throwable"))
+    rep.floor("C08.5", n, 3, "twin pairs")
     # control: and_then (drops) vs map+fallback (keeps) are different canonical forms
     cx = ctx.controls()
     outs = {}
